@@ -1,7 +1,7 @@
 from engine import Obl
 
 META = {
- "level_text": "CBMC symbolic execution of the real lib/hashtable.c, lib/skiplist.c and lib/trie.c against a dictionary + notifier oracle: EVERY history of 2 (quick) / 3 (thorough) operations over the alphabet {put(k), rm(k) for 4 prefix-related keys, complete iteration, foreach abandoned after one entry, prefix iteration (trie)} followed by get of every key, count, a complete iteration and destroy. Operation kinds and keys are compile-time scenario constants (all scenarios generated, exhaustive for the bound); stored values and skiplist node levels are symbolic and decided by SAT. Memory safety of the real node frees is checked by CBMC's pointer checks.",
+ "level_text": "CBMC symbolic execution of the real lib/hashtable.c, lib/skiplist.c and lib/trie.c against a dictionary + notifier oracle: EVERY history of 2 (quick) / 3 (thorough) operations over the alphabet {put(k), rm(k) for 4 prefix-related keys, complete iteration, foreach abandoned after one entry, per-key notifier add, notifier delete with a mismatching / the exact event mask (hashtable, skiplist), prefix iteration (trie)} followed by get of every key, count, a complete iteration and destroy. Operation kinds and keys are compile-time scenario constants (all scenarios generated, exhaustive for the bound); stored values and skiplist node levels are symbolic and decided by SAT. Memory safety of the real node frees is checked by CBMC's pointer checks.",
  "level_note": "Symbolic keys are intractable for symbolic execution of these pointer-rich units (measured: no result in 170 s for 3 operations, merged or path-wise), hence keys are scenario constants: the claim is exhaustive over the stated alphabet and length only. Trusted: CBMC, random() model giving skiplist levels 0..1. Outside: keys longer than 3 bytes, bytes >= 0x80 (trie order by signed char is noted separately), > 4 keys, histories longer than the bound, lib/map.c's function-pointer dispatch (checked by one smoke obligation only).",
  "technique": "CBMC bounded symbolic execution (SAT) of real C code over an exhaustive set of constant operation scenarios with symbolic values; dictionary/notifier ghost oracle",
  "assumptions": ["allocation never fails", "skiplist levels <= 1"],
@@ -27,7 +27,7 @@ def obligations(tier):
     obs = []
     nops = 2 if tier == "quick" else 3
     for impl in range(3):
-        nalpha = 16 if impl == 2 else 12
+        nalpha = 16 if impl == 2 else 14
         for first in range(nalpha):
             obs.append(mk(impl, first, nops, 17, nalpha, 4, ["C17-trie-rm-valueless", "C17-skiplist-header-notify"],
                           tmo=120))
